@@ -1,7 +1,7 @@
 (* Props/C03.v -- CDTs stay constrained Delaunay: every free edge is locally Delaunay.
    Proved: the checker is the statement; the flip lemmas shared with C01.  Not proved: preservation by the CDT operations. *)
 From Coq Require Import ZArith List Bool Arith.
-From SpadeV Require Import Geom.Pred Geom.Lemmas Obs.State Obs.Spec Obs.SpecProp Obs.SpecProofs.
+From SpadeV Require Import Geom.Pred Geom.Lemmas Obs.State Obs.Spec Obs.SpecProp Obs.SpecProofs Dcel.Raw Dcel.WfCore Gen.DcelOps Tri.Legalize Tri.LegalizeProofs.
 
 Theorem C03_checker_is_spec : forall s pts, cdtlocal_b s pts = true <-> CDTLocal s pts.
 Proof. exact cdtlocal_b_spec. Qed.
@@ -11,5 +11,18 @@ Theorem C03_no_constraints : forall s pts,
   (forall e, e < nH s -> flag s e = false) -> CDTLocal s pts -> forall e, e < nH s -> LocallyDelaunayEdge s pts e.
 Proof. intros s pts Hf H e He. apply H; [exact He | apply Hf; exact He]. Qed.
 
+(* the legalization loop never flips a constraint edge and never changes a flag (model of legalize_edge, see Props/C01.v) *)
+Theorem C03_legalize_respects_constraints : forall pts fuel fully d stack b d' b',
+  DWf d -> FacesCcw (obs_of_dcel d) pts -> (forall e, In e stack -> e < length (d_hedges d)) ->
+  legalize pts fuel fully d stack b = Some (d', b') ->
+  d_flags d' = d_flags d /\
+  forall k, k < Raw.num_undirected_edges d -> nth k (d_flags d) false = true ->
+    e_origin d' (2 * k) = e_origin d (2 * k) /\ e_origin d' (2 * k + 1) = e_origin d (2 * k + 1).
+Proof. exact legalize_never_flips_constraints. Qed.
+
+(* an edge is flipped only if it is free, has two inner faces and the opposite apex lies strictly inside the circumcircle *)
+Check legalize_flip_only_if_illegal.
+
+Print Assumptions C03_legalize_respects_constraints.
 Print Assumptions C03_checker_is_spec.
 Print Assumptions C03_no_constraints.
